@@ -120,7 +120,12 @@ func (h *clientConnectionHandler) onConnectionAccepted(connection *CqlServerConn
 			h.connections[clientAddr] = holder
 		}
 		holder.ch <- connection
-		h.anyConnChan <- connection
+		select {
+		case h.anyConnChan <- connection:
+		default:
+			// nobody has been draining the channel (AcceptAny): do not block the accept loop, which holds the lock
+			log.Warn().Msgf("%v: too many connections awaiting AcceptAny, not announcing: %v", h, connection.conn.RemoteAddr())
+		}
 		return nil
 	}
 }
